@@ -507,7 +507,7 @@ class CouplingGraph(Collection[tuple[int, int]]):
         curr_path.add(vertex)
 
         if len(curr_path) == limit:
-            locations.add(CircuitLocation(list(curr_path)))
+            locations.add(CircuitLocation(sorted(curr_path)))
             return
 
         frontier: set[int] = {
